@@ -635,41 +635,54 @@ func fstreeExec(c *runCtx, ops []string) {
 			a := o.int("a")
 			var data []byte
 			var err error
-			switch o.name {
-			case "get":
-				var obj *object.Object
-				if obj, err = t.Get(fsAddr(a)); err == nil {
-					data = obj.Marshal()
-				}
-			case "getb":
-				data, err = t.GetBytes(fsAddr(a))
-			case "stream":
-				var hdr *object.Object
-				var rd io.ReadCloser
-				if hdr, rd, err = t.GetStream(fsAddr(a)); err == nil {
-					pl, rerr := io.ReadAll(rd)
-					rd.Close()
-					if rerr != nil {
-						err = rerr
-					} else {
-						if len(pl) > 0 {
-							hdr.SetPayload(pl)
+			readPanic := ""
+			func() {
+				defer func() {
+					if r := recover(); r != nil { // a read that panics takes the node down: an observation, not a harness death
+						readPanic = fmt.Sprint(r)
+						err = errors.New("panic")
+					}
+				}()
+				switch o.name {
+				case "get":
+					var obj *object.Object
+					if obj, err = t.Get(fsAddr(a)); err == nil {
+						data = obj.Marshal()
+					}
+				case "getb":
+					data, err = t.GetBytes(fsAddr(a))
+				case "stream":
+					var hdr *object.Object
+					var rd io.ReadCloser
+					if hdr, rd, err = t.GetStream(fsAddr(a)); err == nil {
+						pl, rerr := io.ReadAll(rd)
+						rd.Close()
+						if rerr != nil {
+							err = rerr
+						} else {
+							if len(pl) > 0 {
+								hdr.SetPayload(pl)
+							}
+							data = hdr.Marshal()
 						}
-						data = hdr.Marshal()
+					}
+				case "head":
+					var hdr *object.Object
+					if hdr, err = t.Head(fsAddr(a)); err == nil {
+						if w, ok := want[a]; ok && !vary {
+							var full object.Object
+							if full.Unmarshal(w) == nil {
+								fsOracle(c, "head-returns-the-stored-header", "", bytes.Equal(full.CutPayload().Marshal(), hdr.Marshal()), fmt.Sprintf("address %d: header differs from the stored object's", a))
+							}
+						}
 					}
 				}
-			case "head":
-				var hdr *object.Object
-				if hdr, err = t.Head(fsAddr(a)); err == nil {
-					if w, ok := want[a]; ok && !vary {
-						var full object.Object
-						if full.Unmarshal(w) == nil {
-							fsOracle(c, "head-returns-the-stored-header", "", bytes.Equal(full.CutPayload().Marshal(), hdr.Marshal()), fmt.Sprintf("address %d: header differs from the stored object's", a))
-						}
-					}
-				}
-			}
+			}()
 			res = fsErrName(err)
+			if readPanic != "" {
+				res = "panic"
+			}
+			fsOracle(c, "read-never-panics", "", readPanic == "", fmt.Sprintf("%s of address %d panicked: %s", o.name, a, readPanic))
 			if err == nil && o.name != "head" {
 				res = fmt.Sprintf("ok %d:%d", len(data), fsHash(data))
 			}
@@ -773,7 +786,8 @@ func fsNewGen(c *runCtx, big bool) *fsGenState {
 		case big && k < 3:
 			g.total[a] = fsBufLen
 		case big && k < 6:
-			g.total[a] = []int{fsBufLen - 1, fsBufLen + 1, fsBufLen - 38, fsBufLen + 38, 2 * fsBufLen, 2*fsBufLen + 37, 30000}[c.rng.IntN(7)]
+			g.total[a] = []int{fsBufLen - 1, fsBufLen + 1, fsBufLen - 38, fsBufLen + 38, 2 * fsBufLen, 2*fsBufLen + 37, 30000,
+				fsBufLen - 110 + c.rng.IntN(150), fsBufLen - 110 + c.rng.IntN(150)}[c.rng.IntN(9)]
 		case k < 8:
 			g.total[a] = 140 + c.rng.IntN(150) // below the small threshold (300)
 		default:
@@ -814,7 +828,37 @@ func (g *fsGenState) readOp(a int) string {
 	return fmt.Sprintf("fstree %s a=%d", []string{"get", "getb", "stream", "head", "exists", "stream"}[g.c.rng.IntN(6)], a)
 }
 
+// fsGenBufferEdges: combined files whose members end next to the edges of the header buffer, so that the scan for a
+// later member refills the buffer with a partial prefix left over and finds the member close to the buffer's end
+// (a latent slice overflow of readHeader was found there by a red-team agent reading the code; sizes 20405, 20441, >= 20480).
+func fsGenBufferEdges(c *runCtx, run func([]string)) {
+	var cases [][3]int
+	for k := 0; k < 24; k++ { // PutBatch takes a map: the order of the members in the file is random, one in six fits
+		cases = append(cases, [3]int{fsBufLen - 75, fsBufLen - 39, 30000}, [3]int{fsBufLen - 75, fsBufLen - 39, 30000})
+	}
+	for k := 0; k < c.n(10, 400); k++ {
+		cases = append(cases, [3]int{fsBufLen - 110 + c.rng.IntN(150), fsBufLen - 110 + c.rng.IntN(150),
+			[]int{fsBufLen, fsBufLen + 1, 30000, 2*fsBufLen + 37}[c.rng.IntN(4)]})
+	}
+	for ci, cs := range cases {
+		g := &fsGenState{c: c, pre: map[[3]int][]byte{}, ps: map[[3]int]int{}}
+		for a := 1; a <= 8; a++ {
+			g.total[a] = 200
+		}
+		g.total[1], g.total[2], g.total[3] = cs[0], cs[1], cs[2]
+		cfg := fsCfg{Writer: []string{"linux", "generic"}[ci%2], Depth: 1, Thr: 65536, Cnt: 4, Szl: 8 << 20}
+		ops := []string{cfg.line(), "fstree batch n=3 " + g.item("0", 1) + " " + g.item("1", 2) + " " + g.item("2", 3)}
+		for _, a := range []int{3, 2, 1} {
+			for _, r := range []string{"stream", "head", "get", "getb"} {
+				ops = append(ops, fmt.Sprintf("fstree %s a=%d", r, a))
+			}
+		}
+		run(ops)
+	}
+}
+
 func fsGenHistories(c *runCtx, run func([]string)) {
+	fsGenBufferEdges(c, run)
 	for i := 0; i < c.n(90, 4000); i++ {
 		big := i%6 == 5
 		vary := i%10 == 3
